@@ -131,6 +131,7 @@ func c17Body(c *core.Ctx) {
 	}{{"none", false, false}, {"basic", true, false}, {"token", false, true}, {"both", true, true}}
 	methods := []string{"GET", "POST", "PUT", "DELETE", "PATCH", "HEAD", "OPTIONS"}
 	paths := []string{"/api/v1/dags", "/api/v1/dags/x", "/api/v1/dags/x?tab=spec", "/api/v1/search?q=a", "/api/v1/tags", "/api", "/api/", "/api/v1/../v1/dags",
+		"/api/v1/docs/../dags", "/api/v1/docs/x/../../dags/x", "/api/v1/swagger.json/../dags", "/api/v1/./dags", "/api/v1//dags",
 		"/apix", "//api/v1/dags", "/", "/dags", "/assets/x.js", "/API/v1/dags", "/api/v2/unknown"}
 	idx := 0
 	for si, sec := range secrets {
@@ -377,6 +378,12 @@ func c17Assembled(c *core.Ctx, idx int, cfg, other c17Cfg) {
 		{"POST", "/api/v1/dags/x", `{"action":"suspend","value":"true"}`},
 		{"GET", "/api/v1/dags", ""},
 		{"GET", "/api/v1/dags/x?tab=spec", ""},
+		// the router matches on the cleaned path: whatever is exempted from auth must be decided on the same path
+		{"GET", "/api/v1/docs/../dags", ""},
+		{"DELETE", "/api/v1/docs/../dags/x", ""},
+		{"GET", "/api/v1/docs/x/../../dags", ""},
+		{"GET", "/api/v1/swagger.json/../dags", ""},
+		{"POST", "/api/v1/./dags", `{"action":"new","value":"created_by_attacker_2"}`},
 	}
 	for _, hv := range c17Headers(cfg, other, false) {
 		present := hv != "\x00none"
@@ -433,7 +440,7 @@ func init() {
 				{Name: "server", Mode: "server", Shards: 10, Timeout: 30 * time.Minute}}
 		},
 		Exhaustive: func(tier string) bool { return true },
-		Rule:       "Complete grid (exhaustive over the grid, not over all strings): {none, basic, token, both} x 7 secret triples (31 in thorough) incl. empty, one-character, token==user, colon-bearing and non-ASCII secrets x {no base path, /bd} x 7 methods x 15 path shapes (with and without the base path) x ~75 Authorization shapes (absent, empty, scheme only, standard forms, case/spacing/tab variants, trailing junk, secret under the other scheme, bare secret, truncated/extended/wrong-case/swapped/partially-correct credentials, bad base64, other encodings, other schemes), through middleware.Setup + SetupGlobalMiddleware(sentinel) with httptest. Each request is classified by computed predicates, not by construction: must-pass (no auth, or exactly `Basic base64(user:password)` / `Bearer token`), must-reject (no whitespace/comma-separated field equals the token and none decodes, in any base64 alphabet, to user:password) => 401 and sentinel not reached, either (secret present in non-standard form; accepted forms are listed in evidence), non-API path => sentinel not reached. Second harness: the assembled go-swagger API over a real store; every must-reject header x 7 mutating/reading requests must be 401 with the byte-level dump of the DAG/history/flag directories unchanged; positive control with valid credentials. Concurrent passes (plain and under the race detector): 12 client goroutines send 40000 (600000) requests per configuration at the same time, half with valid and half with secret-less credentials, each tagged with its own id; every response is judged as in the grid (a secret-less request that reaches the handler while valid ones are in flight is a violation). Server pass: 40 (400) starts of the real `blackdagger server` on a config.yaml in which basic / token / both auth is switched on and which is intact (positive control: 401 without, 200 with credentials) or damaged (cut at a PRNG position as by a crash in mid-save, garbage appended, tab indentation, binary junk, unclosed quote): the server either does not start or answers requests without / with wrong credentials with 401; a damaged file that is still a valid configuration without the auth keys is not judged. distinct_nontrivial = number of distinct (config, method, path, header) grid points, counted by enumeration.",
+		Rule:       "Complete grid (exhaustive over the grid, not over all strings): {none, basic, token, both} x 7 secret triples (31 in thorough) incl. empty, one-character, token==user, colon-bearing and non-ASCII secrets x {no base path, /bd} x 7 methods x 20 path shapes (with and without the base path; incl. dot segments behind /docs and /swagger.json) x ~75 Authorization shapes (absent, empty, scheme only, standard forms, case/spacing/tab variants, trailing junk, secret under the other scheme, bare secret, truncated/extended/wrong-case/swapped/partially-correct credentials, bad base64, other encodings, other schemes), through middleware.Setup + SetupGlobalMiddleware(sentinel) with httptest. Each request is classified by computed predicates, not by construction: must-pass (no auth, or exactly `Basic base64(user:password)` / `Bearer token`), must-reject (no whitespace/comma-separated field equals the token and none decodes, in any base64 alphabet, to user:password) => 401 and sentinel not reached, either (secret present in non-standard form; accepted forms are listed in evidence), non-API path => sentinel not reached. Second harness: the assembled go-swagger API over a real store; every must-reject header x 7 mutating/reading requests must be 401 with the byte-level dump of the DAG/history/flag directories unchanged; positive control with valid credentials. Concurrent passes (plain and under the race detector): 12 client goroutines send 40000 (600000) requests per configuration at the same time, half with valid and half with secret-less credentials, each tagged with its own id; every response is judged as in the grid (a secret-less request that reaches the handler while valid ones are in flight is a violation). Server pass: 40 (400) starts of the real `blackdagger server` on a config.yaml in which basic / token / both auth is switched on and which is intact (positive control: 401 without, 200 with credentials) or damaged (cut at a PRNG position as by a crash in mid-save, garbage appended, tab indentation, binary junk, unclosed quote): the server either does not start or answers requests without / with wrong credentials with 401; a damaged file that is still a valid configuration without the auth keys is not judged. distinct_nontrivial = number of distinct (config, method, path, header) grid points, counted by enumeration.",
 		Assumptions: []string{"the outcome for a correct secret presented in a non-standard form is not judged (the statement says 'only if')",
 			"OPTIONS is answered by the CORS layer: for must-pass only 'not 401' is demanded"}})
 }
